@@ -39,7 +39,7 @@ func genC15(g *simrt.Tape, tier string) any {
 		var cn C15Conn
 		nr := 1 + g.Draw(3)
 		for r := 0; r < nr; r++ {
-			rs := ReqSc{Version: 4, Option: g.Draw(3)}
+			rs := ReqSc{Version: 4, Option: g.Draw(3), Hdr: genHdr(g)}
 			ni := 1 + g.Draw(5)
 			for i := 0; i < ni; i++ {
 				rs.Items = append(rs.Items, ItemSc{Tok: c15Actions[g.Draw(len(c15Actions))]})
@@ -233,6 +233,14 @@ func c15Floor(tier string) []*C15Sc {
 					{Reqs: []ReqSc{{Version: 4, Items: []ItemSc{{Tok: "y1,pr"}, {Tok: b}, {Tok: "pr"}}}}},
 				}})
 			}
+		}
+	}
+	// every combination of optional header elements around "store, read, store, read" on one connection
+	for _, h := range allHdrs() {
+		for _, direct := range []bool{true, false} {
+			out = append(out, &C15Sc{Direct: direct, Conns: []C15Conn{
+				{Reqs: []ReqSc{{Version: 4, Hdr: h, Items: []ItemSc{{Tok: "pw"}, {Tok: "pr"}, {Tok: "pw,pr"}, {Tok: "pg"}}}, {Version: 4, Hdr: h, Items: []ItemSc{{Tok: "pr"}}}}},
+			}})
 		}
 	}
 	return out
